@@ -211,4 +211,4 @@ impl R32 {
 }
 } // mod r32m
 pub use r32m::*;
-broadcast use r32m::r32_axioms;
+// BROADCAST: r32m::r32_axioms
